@@ -77,7 +77,8 @@ def k_dec_specs():
             S.append(K('dec::k_declen_%s_%s' % (g, k), '%s %s decoder returns Err (no panic) for every other length 0..=140' % (g.upper(), k), ['decoder length checks'],
                        'all strings of every length 0..=140 except the format length (each length, arbitrary content)', [MODEL]))
     S.append(K('dec::k_enc_g1', 'G1 encoders: raw = x||y big-endian; 0x04 prefix; compressed prefix 0x02/0x03 = parity of canonical y', ['G1::to_slice/to_uncompressed/to_compressed'], 'all canonical coordinate pairs (z = 1)', ['layout-only model: decode is the identity on canonical values']))
-    S.append(K('dec::k_enc_g2', 'G2 encoders: imaginary before real, x before y; compressed prefix = parity of the real part of y', ['G2::to_slice/to_uncompressed/to_compressed', 'Fq2::to_slice'], 'all canonical coordinates (z = 1)', ['layout-only model: decode is the identity on canonical values']))
+    for kk in ('raw', 'uncompressed', 'compressed'):
+        S.append(K('dec::k_enc_g2_' + kk, 'G2 ' + kk + ' encoder: imaginary before real, x before y; prefix 0x04 / parity of the real part of y', ['G2::to_slice/to_uncompressed/to_compressed', 'Fq2::to_slice'], 'all canonical coordinates (z = 1)', ['layout-only model: decode is the identity on canonical values']))
     return S
 
 
@@ -99,23 +100,31 @@ def run_c03(tier):
     return A('C03', ['wrappers', 'normalize', 'gabs_toaffine'], tier)
 
 
-def run_c05(tier):
+def skel(pid, tier, whiches):
+    """loop skeletons with a witness search when a skeleton cannot be established (refuted, or the IR no longer
+    has the supported shape): the solver's scalars and a catalogue of structured scalars are replayed natively"""
     import lengine, algreplay
-    obls = lengine.skeleton('C05', tier)
-    obls += lengine.decide('C05', ['L-dec-r'], tier)
-    bad = [o for o in obls if o.name.startswith('L-smul') and not o.name.endswith('canary') and o.status != 'proved']
+    obls = lengine.skeleton(pid, tier, whiches)
+    bad = [o for o in obls if not o.name.endswith('canary') and o.status != 'proved']
     if bad:
-        # the skeleton could not be established (refuted, or the IR no longer has the supported shape): search a
-        # natively reproducible witness among the solver's scalars and a catalogue of structured scalars
         ks = []
         for o in bad:
             ks += getattr(o, 'skel', {}).get('scalars', []) or []
-        rep, wit = algreplay.replay_smul(ks)
+        if any(o.name.startswith('L-smul') for o in bad):
+            rep, wit = algreplay.replay_smul(ks)
+        else:
+            rep, wit = algreplay.replay_pow(ks)
         if rep:
             o = bad[0]
             o.status = 'violated'
-            o.witness = write_replay('C05', o.name, dict(property='C05', engine='L', obligation=o.name, native_replay=wit, how_to_replay='./check C05 --replay <this file>'))
-            o.detail = 'reproduced natively: %s (scalar %s) | %s' % (wit.get('mismatch'), wit.get('scalar'), o.detail[:200])
+            o.witness = write_replay(pid, o.name, dict(property=pid, engine='L', obligation=o.name, native_replay=wit, how_to_replay='./check %s --replay <this file>' % pid))
+            o.detail = 'reproduced natively: %s (scalar/exponent %s) | %s' % (wit.get('mismatch'), wit.get('scalar', wit.get('exponent')), o.detail[:200])
+    return obls
+
+
+def run_c05(tier):
+    obls = skel('C05', tier, ('g1', 'g2'))
+    obls += Ld('C05', ['L-dec-r'], tier)
     obls += A('C05', ['gabs_law', 'consts'], tier)
     return obls
 
@@ -133,19 +142,27 @@ def run_c15(tier):
 
 
 def run_c12(tier):
-    return A('C12', ['fq2'], tier) + kani.decide('C12', sel(k_conv_specs(), ['k_cmp_eq_fq2', 'k_conv_fq2_from_slice', 'k_fq2_bytes']), tier, pool=4)
+    return Ld('C12', ['L-sop2', 'L-const'], tier) + A('C12', ['fq2'], tier) + kani.decide('C12', sel(k_conv_specs(), ['k_cmp_eq_fq2', 'k_conv_fq2_from_slice', 'k_fq2_bytes']), tier, pool=4)
 
 
 def run_c17(tier):
-    return A('C17', ['fq4', 'fq12', 'fq12_inv'], tier)
+    return A('C17', ['fq4', 'fq12', 'fq12_inv'], tier) + Ld('C17', ['L-sop4'], tier)
 
 
 def run_c09(tier):
     return A('C09', ['gabs_new', 'affine_new', 'consts'], tier) + kani.decide('C09', sel(k_dec_specs(), ['k_dec_']), tier, timeout_s=1500, pool=6)
 
 
+def Ld(pid, names, tier):
+    import lengine
+    return lengine.decide(pid, names, tier)
+
+
 def run_c06(tier):
+    import lengine
     obls = kani.decide('C06', k_lin_specs(), tier)
+    obls += Ld('C06', lengine.MUL + lengine.LIN, tier)
+    obls += skel('C06', tier, ('fq', 'fr'))
     return obls
 
 
@@ -157,7 +174,7 @@ def run_c13(tier):
     S = k_conv_specs()
     if tier == 'thorough':
         S.append(K('conv::k_conv_from_str3_fr', 'Fr::from_str on all valid UTF-8 strings of <= 3 bytes', ['Fr::from_str'], '<= 3 bytes', [MODEL]))
-    return kani.decide('C13', S, tier, pool=8)
+    return kani.decide('C13', S, tier, pool=8) + Ld('C13', ['L-enc-q', 'L-enc-r', 'L-dec-q', 'L-dec-r', 'L-const'], tier)
 
 
 def run_c08(tier):
@@ -168,7 +185,9 @@ def run_c08(tier):
 
 def run_c07(tier):
     S = sel(k_lin_specs(), ['k_lin_']) + sel(k_conv_specs(), ['k_conv_from_slice', 'k_conv_interpret', 'k_conv_from_hash', 'k_conv_from_str', 'k_random', 'k_setbit_fr', 'k_cmp_eq', 'k_conv_fq2_from_slice', 'k_conv_roundtrip'])
-    return kani.decide('C07', S, tier, pool=8)
+    import lengine
+    L = [o for o in Ld('C07', lengine.MUL + lengine.SOP[:1], tier) if o.name.endswith('-range') or o.name.startswith('L-const')]
+    return kani.decide('C07', S, tier, pool=8) + L
 
 
 def run_c10(tier):
@@ -177,7 +196,8 @@ def run_c10(tier):
 
 
 def run_c11(tier):
-    return A('C11', ['fq12_gt', 'fq12_inv'], tier) + kani.decide('C11', k_gt_specs(), tier, pool=4)
+    import lengine
+    return A('C11', ['fq12_gt', 'fq12_inv'], tier) + skel('C11', tier, ('fq12',)) + kani.decide('C11', k_gt_specs(), tier, pool=4)
 
 
 def run_c16(tier):
@@ -186,7 +206,8 @@ def run_c16(tier):
 
 def run_c18(tier):
     S = k_lin_specs() + sel(k_conv_specs(), ['k_bytes', 'k_conv_to_big_endian', 'k_setbit', 'k_conv_fq2_from_slice']) + sel(k_dec_specs(), ['k_dec_', 'k_declen_'])
-    return kani.decide('C18', S, tier, timeout_s=1500 if tier == 'quick' else 3600, pool=6)
+    import lengine
+    return kani.decide('C18', S, tier, timeout_s=1500 if tier == 'quick' else 3600, pool=6) + Ld('C18', lengine.LIN, tier)
 
 
 PROPS = {
@@ -244,5 +265,31 @@ def replay(pid, path):
             print('VIOLATION property=%s replay=%s' % (pid, path))
             return 1
         return 0
+    if d.get('engine') in ('A', 'L'):
+        import algreplay
+        nr = d.get('native_replay') or {}
+        print('[replay] stored native mismatch: %s' % (nr.get('mismatch') or nr))
+        if nr.get('task') and nr.get('inputs'):
+            out, err = algreplay.native_alg(nr['task'], {k: int(v, 16) for k, v in nr['inputs'].items()})
+            print('[replay] native %s -> %s' % (nr['task'], ['%064x' % x for x in out] if out else err))
+            if out is not None and ['%064x' % x for x in out] == nr.get('native_output'):
+                print('VIOLATION property=%s replay=%s' % (pid, path))
+                return 1
+            return 0
+        w = d.get('witness') or {}
+        if w.get('op') and w.get('inputs'):
+            import lengine
+            sys.path.insert(0, os.path.join(VERIF, 'llir'))
+            import kernels
+            kernels.REPLAY_EXE = kani.build_replay('release')
+            ins = [int(x, 16) for x in w['inputs']]
+            got = kernels.native_kernel(w['op'], ins)
+            print('[replay] native %s(%s) = %x, stored expectation %s' % (w['op'], w['inputs'], got, w.get('expected')))
+            if '%x' % got != w.get('expected'):
+                print('VIOLATION property=%s replay=%s' % (pid, path))
+                return 1
+            return 0
+        print('VIOLATION property=%s replay=%s (stored witness; re-run ./check %s for a fresh replay)' % (pid, path, pid))
+        return 1
     print('unknown replay engine')
     return 2
